@@ -21,11 +21,13 @@
 (***************************************************************************)
 EXTENDS NetSimplexOps, TLC, Json
 
-CONSTANTS NN, MM, Thoroughness, Parallel     \* Parallel: allow parallel edges
+CONSTANTS NN, MM, Thoroughness, Parallel,    \* Parallel: allow parallel edges
+          Weights, Deltas,                  \* every edge takes a weight and a minimum length from these sets ({1}, {1} in phase 2)
+          Mode                              \* "V": the layerer (vbalance); "H": the positioner's run (hbalance, then normalize)
 
-VARIABLES pairs, st
-vars == <<pairs, st>>
-es == MkAdj(Cardinality(IF pairs = <<>> THEN {} ELSE {pairs[i][1] : i \in DOMAIN pairs} \cup {pairs[i][2] : i \in DOMAIN pairs}), pairs)
+VARIABLES pairs, wd, st
+vars == <<pairs, wd, st>>
+es == MkAdjW(Cardinality(IF pairs = <<>> THEN {} ELSE {pairs[i][1] : i \in DOMAIN pairs} \cup {pairs[i][2] : i \in DOMAIN pairs}), pairs, wd)
 
 NodesOf(s) == IF s = <<>> THEN {} ELSE {s[i][1] : i \in DOMAIN s} \cup {s[i][2] : i \in DOMAIN s}
 Seen(s) == Cardinality(NodesOf(s))
@@ -33,7 +35,7 @@ Seen(s) == Cardinality(NodesOf(s))
 RECURSIVE Reach(_, _)
 Reach(s, S) == LET T == S \cup {s[i][2] : i \in {j \in DOMAIN s : s[j][1] \in S}} IN IF T = S THEN S ELSE Reach(s, T)
 
-Init == pairs = <<>> /\ st = [phase |-> "build"]
+Init == pairs = <<>> /\ wd = <<>> /\ st = [phase |-> "build"]
 \* canonical (first-appearance order), connected at every step, acyclic, optionally without parallel edges
 AddEdge == /\ st.phase = "build" /\ Len(pairs) < MM
            /\ \E u, v \in 1..NN :
@@ -45,12 +47,14 @@ AddEdge == /\ st.phase = "build" /\ Len(pairs) < MM
                  /\ u \notin Reach(pairs, {v})
                  /\ (Parallel \/ \A i \in DOMAIN pairs : pairs[i] # <<u, v>>)
                  /\ pairs' = Append(pairs, <<u, v>>)
+           /\ \E w \in Weights, d \in Deltas : wd' = Append(wd, <<w, d>>)
            /\ UNCHANGED st
 MaxIter == Thoroughness * (CHOOSE k \in 0..NN : k * k <= Seen(pairs) /\ (k + 1) * (k + 1) > Seen(pairs))
 Start == /\ st.phase = "build" /\ Len(pairs) >= 1
-         /\ st' = InitState(es, Seen(pairs)) /\ UNCHANGED pairs
+         /\ st' = InitState(es, Seen(pairs)) /\ UNCHANGED <<pairs, wd>>
 Run == /\ st.phase \in {"tree", "pivot", "balance"}
-       /\ st' = Step(es, Seen(pairs), st, MaxIter) /\ UNCHANGED pairs
+       /\ st' = (IF st.phase = "balance" /\ Mode = "H" THEN HBalanceStep(es, Seen(pairs), st) ELSE Step(es, Seen(pairs), st, MaxIter))
+       /\ UNCHANGED <<pairs, wd>>
 Next == AddEdge \/ Start \/ Run
 Spec == Init /\ [][Next]_vars
 
@@ -61,9 +65,13 @@ CutValuesRight == st.phase = "pivot" => \A e \in st.tree : st.cut[e] = CutOf(es,
 NoPanic == st.phase # "panic_no_incident_edge"
 \* brute-force optimum over all rank functions
 MinTotal == LET n == Seen(pairs) IN
-            Min({TotalLen(es, r) : r \in {f \in [1..n -> 0..(n - 1)] : Feasible(es, f)}})
+            Min({TotalLen(es, r) : r \in {f \in [1..n -> 0..((n - 1) * Max(Deltas))] : Feasible(es, f)}})
 Optimal == (st.phase = "done" /\ ~st.capped) => TotalLen(es, st.rank) = MinTotal
 NotStuck == Running => ~st.stuck
+\* the positioner's balancing moves subtrees along edges of cut value 0: same objective, and the lowest layer is 0 again
+HBalanceKeepsObjective == [][(st.phase = "balance" /\ st'.phase = "done") => TotalLen(es, st'.rank) = TotalLen(es, st.rank)]_vars
+LowestIsZero == st.phase = "done" => Min({st.rank[n] : n \in 1..Seen(pairs)}) = 0
+Goal_HBalanceMoves == ~(Mode = "H" /\ st.phase = "balance" /\ LET r == Normalize(Seen(pairs), st.rank) IN HBal(es, st, 1, r) # r)
 Contiguous == st.phase = "done" => LET used == {st.rank[n] : n \in 1..Seen(pairs)} IN used = 0..Max(used)
 ObjectiveNeverIncreases == [][(st.phase = "pivot" /\ st'.phase = "pivot") => TotalLen(es, st'.rank) <= TotalLen(es, st.rank)]_vars
 
